@@ -38,13 +38,17 @@ Plains == <<
   <<LBrace, I(1), X("currentfile"), X("closefile"), I(2), RBrace, X("exec")>>,  \* closefile inside a procedure abandons the rest
   <<N("a"), I(1), X("def"), I(7), X("stop"), I(8)>>,                           \* 12: stop ends the program, not just the section
   <<LBrace, I(7), LBrace, X("stop"), RBrace, X("exec"), I(8), RBrace, X("loop"), I(9)>>,   \* 13: stop from inside a loop
-  <<LBrace, X("currentdict"), X("begin"), RBrace, X("loop")>>                   \* 14: the dictionary stack limit holds inside the section
+  <<LBrace, X("currentdict"), X("begin"), RBrace, X("loop")>>,                  \* 14: the dictionary stack limit holds inside the section
+  \* 15: entered with systemdict already on top: the section still pushes its own entry, so that one `end`
+  \* inside leaves the outer systemdict current (the definition lands there, not in userdict)
+  <<X("end"), N("probe"), I(1), X("def"), X("currentdict"), X("systemdict"), X("eq")>> \o Close
 >>
 \* which plaintexts end in closefile (only those may be followed by a trailer)
 Closes(p) == p \notin {9, 10, 14}
 \* tokens placed before "currentfile eexec": plaintext 14 enters the section with 18 dictionaries open,
 \* so that the section's own systemdict is the last entry the limit allows
-PreExtra(p) == IF p = 14 THEN [j \in 1..36 |-> IF j % 2 = 1 THEN X("currentdict") ELSE X("begin")] ELSE <<>>
+PreExtra(p) == IF p = 14 THEN [j \in 1..36 |-> IF j % 2 = 1 THEN X("currentdict") ELSE X("begin")]
+               ELSE IF p = 15 THEN <<X("systemdict"), X("begin")>> ELSE <<>>
 
 Pre == <<N("before"), I(1), X("def"), X("currentfile"), X("eexec")>>
 ZeroLines == [j \in 1..8 |-> I(0)]
@@ -119,7 +123,7 @@ ASSUME JsonSerialize(BaseFile, [heap |-> FreshHeap, nfixed |-> NFixed])
 \* design-level: the dictionary stack after the run is the one before the section, the
 \* section never nests, and no behaviour is skipped (every generated stimulus has an outcome)
 Inv == /\ DictStackBounded(s) /\ DictStackBase(s)
-       /\ (phase = "run" /\ s.status = "done") => (s.eex = 0 /\ (stim.p \notin {5, 12, 13} => Len(s.dst) = 2))
+       /\ (phase = "run" /\ s.status = "done") => (s.eex = 0 /\ (stim.p \notin {5, 12, 13, 15} => Len(s.dst) = 2))
        /\ (phase = "run") => s.status # "skip"
 \* the section ends by closefile or at the end of the file with the dictionary stack restored, or the
 \* program is stopped (nothing is left to run and the dictionary stack stays as it is)
